@@ -93,6 +93,13 @@ fn gen_corpus(target: &str, dir: &str, seed: u64) {
                 put(v);
             }
         }
+        "strat" => {
+            // the structured target decodes choices from the bytes: random choice strings of various lengths
+            for i in 0..240usize {
+                let len = [8usize, 24, 64, 160, 400, 900][i % 6];
+                put(s.sample(&proptest::collection::vec(proptest::prelude::any::<u8>(), len..len + 1)));
+            }
+        }
         _ => usage(),
     }
     println!("{} corpus files written to {}", n, dir);
@@ -109,23 +116,28 @@ fn fuzz_triage(id: &str, target: &str, file: &str) -> i32 {
         }
     };
     if target == "strat" {
-        // structured target: rebuild the case from the fuzzer bytes, shrink it under the same signature, save it as an
-        // ordinary replay of the property
-        let Some(o) = dltverif::props::structured::run(id, &data, true) else {
-            println!("NOT-REPRODUCED property={} target=strat artifact={} (no case can be built from this input)", id, file);
-            return 3;
+        // structured target: decode the case, minimise the input at byte level under the same violation signature,
+        // decode once more and save the *case* as an ordinary replay of the property
+        use dltverif::props::structured;
+        let judge = |d: &[u8]| -> Option<(dltverif::runner::Violation, &'static str, Value)> {
+            match structured::run(id, d) {
+                Some(o) => o.result.err().map(|v| (v, o.section, o.case)),
+                None => None,
+            }
         };
-        let Err(v) = o.result else {
-            println!("NOT-REPRODUCED property={} target=strat artifact={} (the in-process oracle accepts the case built from this input)", id, file);
+        let Some((first, _, _)) = judge(&data) else {
+            println!("NOT-REPRODUCED property={} target=strat artifact={} (the in-process oracle accepts the case decoded from this input)", id, file);
             return 3;
         };
         let known = dltverif::runner::load_known(&root());
-        if known.iter().any(|k| k.property == id && v.sig.contains(&k.signature)) {
-            println!("KNOWN-FINDING: property={} signature={} (rediscovered by the structured fuzz target)", id, v.sig);
+        if known.iter().any(|k| k.property == id && first.sig.contains(&k.signature)) {
+            println!("KNOWN-FINDING: property={} signature={} (rediscovered by the structured fuzz target)", id, first.sig);
             return 0;
         }
+        let min = dltverif::oracle::minimise(&data, &|d| judge(d).map(|x| x.0.sig));
+        let (v, section, case) = judge(&min).unwrap_or_else(|| judge(&data).unwrap());
         let run = Run::new(&root(), id, Tier::Thorough, 0, "exploration");
-        let path = run.report_violation(o.section, o.case, &v);
+        let path = run.report_violation(section, case, &v);
         println!("VIOLATION property={} replay={}", id, path);
         println!("  {}", v.msg.lines().next().unwrap_or(""));
         return 1;
